@@ -116,7 +116,8 @@ def run_check(prop, tier, seed):
         path = C.write_replay(prop, {
             'property': prop, 'kind': 'failing-input', 'signature': f0['signature'], 'what': f0['what'],
             'input': f0['case'], 'observed_impl': f0['observed'], 'seed': seed, 'tier': tier,
-            'other_failures': [{'signature': f['signature'], 'what': f['what']} for f in new_fail[1:10]],
+            'other_failures': [{'signature': f['signature'], 'what': f['what'], 'input': f['case']}
+                               for f in list({g['signature']: g for g in reversed(new_fail[1:])}.values())[:12]],
             'broken_obligations': [o[0] for o in broken], 'repo': C.repo_state()})
         lines.append(f'VIOLATION property={prop} replay={path}')
         rc = 1
